@@ -22,6 +22,10 @@ pub trait Backend {
     fn is_file(&self, path: &Path) -> bool;
     fn is_dir(&self, path: &Path) -> bool;
     fn open(&self, path: &Path) -> io::Result<Opened>;
+    /// does the path run through a regular file where it needs a directory (stat gives ENOTDIR)?
+    fn blocked_by_file(&self, _path: &Path) -> bool {
+        false
+    }
 }
 
 /// What a simulated `open` hands back: the byte stream and what `fstat` would say about it.
@@ -74,6 +78,8 @@ pub fn metadata<P: AsRef<Path>>(path: P) -> io::Result<Metadata> {
                 Ok(Metadata::Sim { is_dir: false, len: 0 })
             } else if b.is_dir(path.as_ref()) {
                 Ok(Metadata::Sim { is_dir: true, len: 0 })
+            } else if b.blocked_by_file(path.as_ref()) {
+                Err(io::Error::new(io::ErrorKind::NotADirectory, "Not a directory (simfs)"))
             } else {
                 Err(io::Error::new(io::ErrorKind::NotFound, "No such file or directory (simfs)"))
             }
@@ -97,7 +103,8 @@ fn backend() -> Option<Rc<dyn Backend>> {
 
 enum Inner {
     Real(std::fs::File),
-    Sim(Box<dyn Read>, Metadata),
+    /// the stream is shared between clones of the handle, as the file offset of a real descriptor is
+    Sim(Rc<RefCell<Box<dyn Read>>>, Metadata),
 }
 
 /// `std::fs::File` look-alike (read side only; everything else is the real file).
@@ -115,12 +122,23 @@ impl std::fmt::Debug for File {
 impl File {
     pub fn open<P: AsRef<Path>>(path: P) -> io::Result<File> {
         match backend() {
-            Some(b) => b.open(path.as_ref()).map(|o| File(Inner::Sim(o.reader, Metadata::Sim { is_dir: o.is_dir, len: o.len }))),
+            Some(b) => b.open(path.as_ref()).map(|o| File(Inner::Sim(Rc::new(RefCell::new(o.reader)), Metadata::Sim { is_dir: o.is_dir, len: o.len }))),
             None => std::fs::File::open(path).map(|f| File(Inner::Real(f))),
         }
     }
     pub fn create<P: AsRef<Path>>(path: P) -> io::Result<File> {
         std::fs::File::create(path).map(|f| File(Inner::Real(f)))
+    }
+    /// `File::try_clone`: the clone shares the read position with the original.
+    pub fn try_clone(&self) -> io::Result<File> {
+        match &self.0 {
+            Inner::Real(f) => f.try_clone().map(|f| File(Inner::Real(f))),
+            Inner::Sim(r, m) => Ok(File(Inner::Sim(r.clone(), m.clone()))),
+        }
+    }
+    /// (what the rewritten `.metadata()` of tools/instrument.py calls)
+    pub fn verif_metadata(&self) -> io::Result<Metadata> {
+        self.metadata()
     }
     pub fn metadata(&self) -> io::Result<Metadata> {
         match &self.0 {
@@ -134,7 +152,7 @@ impl Read for File {
     fn read(&mut self, buf: &mut [u8]) -> io::Result<usize> {
         match &mut self.0 {
             Inner::Real(f) => f.read(buf),
-            Inner::Sim(r, _) => r.read(buf),
+            Inner::Sim(r, _) => r.borrow_mut().read(buf),
         }
     }
 }
@@ -175,9 +193,14 @@ pub trait PathExt {
     fn verif_is_file(&self) -> bool;
     fn verif_is_dir(&self) -> bool;
     fn verif_exists(&self) -> bool;
+    /// `Path::metadata` (only meaningful on paths; metadata types answer with themselves)
+    fn verif_metadata(&self) -> io::Result<Metadata>;
 }
 
 impl PathExt for Metadata {
+    fn verif_metadata(&self) -> io::Result<Metadata> {
+        Ok(self.clone())
+    }
     fn verif_is_file(&self) -> bool {
         self.is_file()
     }
@@ -190,6 +213,9 @@ impl PathExt for Metadata {
 }
 
 impl PathExt for std::fs::Metadata {
+    fn verif_metadata(&self) -> io::Result<Metadata> {
+        Ok(Metadata::Real(self.clone()))
+    }
     fn verif_is_file(&self) -> bool {
         self.is_file()
     }
@@ -202,6 +228,9 @@ impl PathExt for std::fs::Metadata {
 }
 
 impl PathExt for std::fs::FileType {
+    fn verif_metadata(&self) -> io::Result<Metadata> {
+        Err(io::Error::new(io::ErrorKind::Unsupported, "metadata of a file type"))
+    }
     fn verif_is_file(&self) -> bool {
         self.is_file()
     }
@@ -214,6 +243,9 @@ impl PathExt for std::fs::FileType {
 }
 
 impl PathExt for Path {
+    fn verif_metadata(&self) -> io::Result<Metadata> {
+        metadata(self)
+    }
     fn verif_is_file(&self) -> bool {
         match backend() {
             Some(b) => b.is_file(self),
